@@ -8,6 +8,7 @@ import (
 	"seehuhn.de/go/postscript/funit"
 	"seehuhn.de/go/sfnt/glyf"
 	"seehuhn.de/go/sfnt/glyph"
+	"seehuhn.de/go/sfnt/opentype/coverage"
 	"seehuhn.de/go/sfnt/opentype/gtab"
 )
 
@@ -146,5 +147,61 @@ func VerifH_C15_liga() {
 		verifAssert(len(out) == 2 && out[0].GID == 1 && out[1].GID == 4, "ffi -> f fi")
 	default:
 		verifAssert(len(out) == 3, "no applicable ligature")
+	}
+}
+
+// VerifH_C15_switches: NewLayouter honours the caller's feature switches.  The font has an optional `liga`
+// feature (f i -> fi) and an optional `kern` feature (A B closer by a symbolic amount); each of the two
+// switch maps is nil (defaults: both features are on), empty but non-nil (nothing selected), or names the
+// feature with a solver-chosen value.
+func VerifH_C15_switches() {
+	f := verifTTFont(glyf.Glyphs{verifSimpleGlyph(0), verifSimpleGlyph(1), verifSimpleGlyph(2), verifSimpleGlyph(3), verifSimpleGlyph(4), verifSimpleGlyph(5)})
+	f.CMapTable = verifCmap12([]rune{'A', 'B', 'f', 'i'}, []glyph.ID{1, 2, 3, 4})
+	latin := language.MustParse("und-Latn-x-latn")
+	f.Gsub = &gtab.Info{
+		ScriptList:  map[language.Tag]*gtab.Features{latin: {Required: 0xFFFF, Optional: []gtab.FeatureIndex{0}}},
+		FeatureList: []*gtab.Feature{{Tag: "liga", Lookups: []gtab.LookupIndex{0}}},
+		LookupList: gtab.LookupList{{Meta: &gtab.LookupMetaInfo{LookupType: 4}, Subtables: []gtab.Subtable{
+			&gtab.Gsub4_1{Cov: coverage.Table{3: 0}, Repl: [][]gtab.Ligature{{{In: []glyph.ID{4}, Out: 5}}}}}}},
+	}
+	k := funit.Int16(verifI16("kern"))
+	verifAssume(k != 0)
+	f.Gpos = &gtab.Info{
+		ScriptList:  map[language.Tag]*gtab.Features{latin: {Required: 0xFFFF, Optional: []gtab.FeatureIndex{0}}},
+		FeatureList: []*gtab.Feature{{Tag: "kern", Lookups: []gtab.LookupIndex{0}}},
+		LookupList: gtab.LookupList{{Meta: &gtab.LookupMetaInfo{LookupType: 2}, Subtables: []gtab.Subtable{
+			gtab.Gpos2_1{glyph.Pair{Left: 1, Right: 2}: &gtab.PairAdjust{First: &gtab.GposValueRecord{XAdvance: k}}}}}},
+	}
+	switches := func(tag, feature string) (map[string]bool, bool) {
+		switch verifChoose(tag, 3) {
+		case 0:
+			return nil, true // defaults
+		case 1:
+			return map[string]bool{}, false // explicit, nothing switched on
+		}
+		on := verifBool(tag + ".on")
+		return map[string]bool{feature: on}, on
+	}
+	gsubSw, ligaOn := switches("gsub", "liga")
+	gposSw, kernOn := switches("gpos", "kern")
+	l, err := f.NewLayouter(language.MustParse("en"), gsubSw, gposSw)
+	verifAssert(err == nil, "layouter created")
+	if err != nil {
+		return
+	}
+	seq := l.Layout("fiAB")
+	verifReach("laid out")
+	if ligaOn {
+		verifAssert(len(seq) == 3 && seq[0].GID == 5, "liga selected: f i becomes the ligature")
+	} else {
+		verifAssert(len(seq) == 4 && seq[0].GID == 3 && seq[1].GID == 4, "liga not selected: no ligature")
+	}
+	n := len(seq)
+	if n >= 2 {
+		want := funit.Int16(200) // advance width of glyph 1
+		if kernOn {
+			want += k
+		}
+		verifAssert(seq[n-2].GID == 1 && seq[n-2].Advance == want, "kern applied exactly when selected")
 	}
 }
